@@ -187,16 +187,32 @@ def run_channel(prop, ch, tier, seed):
     return {"channel": ch, "requests": n, "disagreements": ndiff, "diffs": diffs}
 
 
-def run_pred(prop, tier, seed, extra=None):
+def build_race():
+    """the same harness built with the Go race detector (used by C18)"""
+    r = sh(["go", "build", "-race", "-tags", "verif", "-o", MFH + "-race", "."], cwd=HARNESS, env=GOENV)
+    if r.returncode != 0:
+        return "go build -race of the harness failed:\n" + r.stdout
+    return None
+
+
+def run_pred(prop, tier, seed, extra=None, race=False):
     """the property's own predicate evaluated on the implementation (mfh prop ...): JSON on stdout"""
-    cmd = [MFH, "prop", prop, tier, str(seed)] + (extra or [])
-    r = subprocess.run(cmd, stdout=subprocess.PIPE, stderr=subprocess.PIPE, env=GOENV, text=True, timeout=7200)
+    cmd = [MFH + "-race" if race else MFH, "prop", prop, tier, str(seed)] + (extra or [])
+    env = dict(GOENV, GORACE="halt_on_error=0 exitcode=0") if race else GOENV
+    r = subprocess.run(cmd, stdout=subprocess.PIPE, stderr=subprocess.PIPE, env=env, text=True, timeout=7200)
     if r.returncode != 0:
         return {"error": "mfh prop %s failed (%d): %s" % (prop, r.returncode, (r.stderr or r.stdout)[-2000:])}
     try:
-        return json.loads(r.stdout.strip().splitlines()[-1])
+        res = json.loads(r.stdout.strip().splitlines()[-1])
     except Exception as e:  # noqa
         return {"error": "unparsable predicate output: %s: %s" % (e, r.stdout[-500:])}
+    if race:
+        res.setdefault("hist", {})["race_detector"] = 1
+        if "WARNING: DATA RACE" in r.stderr:
+            i = r.stderr.index("WARNING: DATA RACE")
+            res.setdefault("failures", []).append({"key": "race:" + hashlib.sha1(r.stderr[i:i + 400].encode()).hexdigest()[:10], "input": "", "text": "",
+                                                   "entry": "concurrent Parse*/SQL()/Walk", "detail": "the Go race detector reports: " + r.stderr[i:i + 1800]})
+    return res
 
 
 # ---------------------------------------------------------------------------------------
@@ -274,6 +290,12 @@ def check(prop, tier, seed):
             log(err)
             print("BUILD-FAILED property=%s (the tree under test does not compile with -tags verif)" % prop)
             return 2
+        if cfg.get("race"):
+            err = build_race()
+            if err:
+                log(err)
+                print("BUILD-FAILED property=%s (race build)" % prop)
+                return 2
         err, geninfo = run_extract()
         if err:
             broken.append({"kind": "translator", "name": "tools/extract", "detail": err[-1500:]})
@@ -349,7 +371,7 @@ def check(prop, tier, seed):
             hp = os.path.join(BUILD, "run", prop, "hints.req")
             open(hp, "w").write("\n".join(hints) + "\n")
             extra = ["--hints", hp]
-        pred = run_pred(prop, tier, seed, extra)
+        pred = run_pred(prop, tier, seed, extra, race=bool(cfg.get("race")))
         if pred.get("error"):
             broken.append({"kind": "predicate", "name": "mfh prop " + prop, "detail": pred["error"]})
         else:
